@@ -47,6 +47,7 @@ type Exec struct {
 	src    *decisionSrc
 	pc     []*Term
 	globs  map[*ssa.Global]*Pointer
+	pools  map[*Object][]Value // sync.Pool contents per pool object
 	extErr map[string]*IfaceV
 
 	nextObj int
